@@ -41,7 +41,7 @@ def config(rng, tier):
         "interval_share": rng.choice([0.6, 0.6, 1.0, 0.0, 0.85]),
         "maxn": rng.choice([8] * 16 + [24, 40, 120]),
         # tier-name universe: the property's 4 plain names, or names with awkward shapes, or 10 names
-        "names": rng.choice(["abcd"] * 6 + ["prefix", "odd", "unicode", "many"]),
+        "names": rng.choice(["abcd"] * 6 + ["prefix", "odd", "unicode", "many", "braces", "nfc", "glob"]),
         "ulps": rng.random() < 0.5,  # decimal regime: window / region edges also one ulp or 1e-9 off a boundary
     }
 
@@ -464,6 +464,8 @@ def generate(run, rng):
                     sel = rng.sample(names, rng.randrange(1, len(names) + 1))
                     if fault and rng.random() < 0.3:
                         sel.append("zz")
+                    elif sel and rng.random() < 0.12:
+                        sel.insert(rng.randrange(len(sel) + 1), rng.choice(sel))  # the same name given twice
                 run.do({"op": "tg.mergeTiers", "recv": tgh, "a": [sel, rng.random() < 0.6], "out": out_h})
         # housekeeping
         lt = w.live(TextgridTier)
